@@ -24,7 +24,7 @@ ASSUMPTIONS = ["2^31-1 is approached with reserved, never-written elements (spar
                "a request that fits is not required to succeed unless it is a small follow-up with >=1 MiB headroom",
                "getter buffers are always larger than the name that was set (the caller's side of the contract)"]
 I32MAX = 2 ** 31 - 1
-FAMILIES = ["eof", "members", "refs", "fields", "names", "dims", "openfiles", "chunks"]
+FAMILIES = ["eof", "members", "refs", "fields", "names", "dims", "openfiles", "chunks", "boundary"]
 
 
 class Fail(Exception):
@@ -1730,11 +1730,66 @@ def run_chunks(case, d, labels, excluded, known_keys):
 
 
 # ====================================================================== dispatcher
+@st.composite
+def boundary_case(draw):
+    """an element reserved so that it ends exactly at, just below or just above file offset 2^31"""
+    return {"family": "boundary", "delta": draw(st.sampled_from([-2, -1, -1, 0, 0, 1])), "ndds": draw(st.sampled_from([0, 16, 200])),      # a free descriptor slot is certain: no block is added in between
+            "pre": draw(st.integers(0, 3)), "cache": draw(st.booleans())}
+
+
+def run_boundary(case, d, labels, excluded, known_keys):
+    p = Prog()
+    p.call("i", "Hopen", "big.hdf", 4, case["ndds"], bind="f")
+    if not case["cache"]:
+        p.call("i", "Hcache", V("f"), 0)
+    for i in range(case["pre"]):
+        p.call("i", "Hputelement", V("f"), 101, 10 + i, pat(7 * (i + 1), i), 7 * (i + 1))
+    lr = p.call("i", "hx_reserve_to_boundary", V("f"), 100, 1, case["delta"])
+    lp = p.call("i", "Hputelement", V("f"), 101, 50, b"after", 5)
+    lc = p.call("i", "Hclose", V("f"))
+    p.call("i", "Hopen", "big.hdf", 1, 0, bind="f")
+    ll = p.call("i", "Hlength", V("f"), 100, 1)
+    for i in range(case["pre"]):
+        p.call("i", "Hgetelement", V("f"), 101, 10 + i, Out(7 * (i + 1) + 4))
+    p.call("i", "Hclose", V("f"))
+    rr = run(p, cwd=d, timeout=120)
+    if not rr.done:
+        raise Fail("crash", detail=rr.sanitizer_summary(), frames=rr.crash_frames(), program=p.text())
+    acc = rr.res[lr].ret
+    if acc < 0:
+        raise Fail("harness: boundary helper failed", code=acc)
+    labels.add("over_limit" if case["delta"] >= 0 else "at_limit")
+    labels.add("follow_up_checked")
+    if case["delta"] >= 0 and acc == 1:
+        raise Fail("an element ending beyond file offset 2^31-1 was accepted", end=(1 << 31) + case["delta"],
+                   later_put=rr.res[lp].ret, close=rr.res[lc].ret, program=p.text())
+    if case["delta"] < 0:
+        if acc != 1:
+            raise Fail("an element ending at or below file offset 2^31-1 was refused", end=(1 << 31) + case["delta"],
+                       program=p.text())
+        labels.add("append_ok")
+    else:
+        labels.add("refused")
+        # a refused reservation must not disturb the session: a small element still fits
+        if rr.res[lp].ret != 5 or rr.res[lc].ret != 0:
+            raise Fail("after a refused reservation a small element could not be stored / the file not closed",
+                       put=rr.res[lp].ret, close=rr.res[lc].ret, program=p.text())
+    if rr.res[lc].ret == 0:
+        f = h4fmt.parse_file_mmap(os.path.join(d, "big.hdf"))
+        try:
+            if f.violations:
+                raise Fail("file is not well-formed after a reservation at the offset limit", violations=f.violations[:4],
+                           program=p.text())
+        finally:
+            f.data.close()
+
+
 STRATS = {"eof": eof_case, "members": members_case, "refs": refs_case, "fields": fields_case, "names": names_case,
-          "dims": dims_case, "openfiles": openfiles_case, "chunks": chunks_case}
+          "dims": dims_case, "openfiles": openfiles_case, "chunks": chunks_case, "boundary": boundary_case}
 RUNNERS = {"eof": run_eof, "members": run_members, "refs": run_refs, "fields": run_fields, "names": run_names,
-           "dims": run_dims, "openfiles": run_openfiles, "chunks": run_chunks}
-WEIGHTS = {"eof": 12, "members": 2, "refs": 1, "fields": 8, "names": 12, "dims": 8, "openfiles": 4, "chunks": 1}
+           "dims": run_dims, "openfiles": run_openfiles, "chunks": run_chunks, "boundary": run_boundary}
+WEIGHTS = {"eof": 12, "members": 2, "refs": 1, "fields": 8, "names": 12, "dims": 8, "openfiles": 4, "chunks": 1,
+           "boundary": 3}
 
 
 @st.composite
